@@ -123,6 +123,8 @@ def run(E: Engine, rep: Report, tier: str) -> dict:
     for l in ulu_calls:
         recv = is_(l.target[1], "self._basis_ref[Q_b][Q_q]")
         ok = ok and recv is not None and recv["Q_b"] == basis and elem_of(recv["Q_q"], ("attr", last, "targets")) and arg(l, 0) == ("attr", last, "tf") and own.index(l) > own.index(c_ap[-1])
+        # ... whenever the pulse was added: not only when it carries a post-phase-shift
+        ok = ok and set(sym.conj_of(l.cond)) <= set(sym.conj_of(c_ap[-1].cond))
     rep.check(ok, "FLOW", "Sequence._add|update_last_used(new-slot-end)", "each target's last_used is advanced to the new pulse's end", "last_used is no longer advanced, for each target of the pulse, to the end of the channel's last slot read after add_pulse", E.where(add))
     c_ps = [l for l in own if l.kind == "call" and l.target == ("attr", ("name", "self"), "_phase_shift")]
     ok = bool(c_ps)
@@ -133,6 +135,35 @@ def run(E: Engine, rep: Report, tier: str) -> dict:
         sched_pulse = arg(c_ap[-1], 0, "pulse")
         ok = ok and a0 is not None and sym.contains(a0, ("attr", sched_pulse, "post_phase_shift")) and len(stars) == 1 and len(l.value[2]) == 2 and stars[0][1] == ("attr", last, "targets") and bs == basis and own.index(l) > own.index(c_ap[-1])
     rep.check(ok, "FLOW", "Sequence._add|post_phase_shift-applied-to-targets", "_phase_shift(post_phase_shift [- drift], *last.targets, basis=basis)", "the post-phase-shift is no longer applied (after the pulse is added) to the pulse's targets in the channel's basis", E.where(add))
+    # one reference object per atom: every table stored into _basis_ref is {q: _QubitRef() for q in <qubit ids>}
+    # (dict.fromkeys(ids, _QubitRef()) would make all atoms share one reference)
+    n_tab = 0
+    for g in E.P.all_functions():
+        if g.module.name != "pulser.sequence.sequence" or g.kind == "overload" or "_basis_ref" not in norm(g.node):
+            continue
+        for l in S(E, g, inline=False).logged("store"):
+            if l.target is None or l.target[0] != "idx" or l.target[1] != ("attr", ("name", "self"), "_basis_ref") or l.fn != g.short:
+                continue
+            n_tab += 1
+            v = unobj(l.value)
+            fresh = v[0] == "comp" and v[1] == "dict" and len(v[3]) == 1 and v[2][0] == "tuple" and unobj(v[2][2]) == ("call", ("name", "_QubitRef"), (), ()) and v[2][1] == ("elem", v[3][0][0], 0)
+            rep.check(fresh, "FLOW", f"{g.short}|one-_QubitRef-per-atom", "the reference table is {q: _QubitRef() for q in ids}: one object per atom", f"{g.short} stores `{sh(v, 100)}` as the phase-reference table of a basis: every atom must get its own _QubitRef (a shared object makes a phase shift on one atom shift all of them)", E.where(g, l.node))
+    if n_tab < 2:
+        rep.error(f"only {n_tab} phase-reference tables found (expected declare_channel and _config_detuning_map)")
+    # every Pulse constructor forwards each of its parameters to the pulse it returns (a dropped post_phase_shift
+    # would silently leave the phase reference unchanged)
+    pcls = E.cls("pulser.pulse.Pulse")
+    n_ctor = 0
+    for nm_, fs_ in pcls.methods.items():
+        for g in fs_:
+            if g.kind != "classmethod":
+                continue
+            n_ctor += 1
+            rg = S(E, g).ret
+            missing = [p_ for p_ in g.params[1:] if rg is None or not sym.contains(rg, ("name", p_))]
+            rep.check(not missing, "FLOW", f"Pulse.{nm_}|forwards-every-parameter", "the returned pulse depends on every parameter of the constructor", f"Pulse.{nm_} no longer uses its parameter(s) {missing} in the pulse it returns", E.where(g))
+    if n_ctor < 3:
+        rep.error(f"only {n_ctor} Pulse classmethod constructors found")
     # the scheduler may re-create the pulse (phase-drift correction): it keeps every field but the phase
     mn = E.method(SCHED, "make_next_pulse_slot")
     for l in [l for l in S(E, mn).calls("Pulse") if l.fn == mn.short]:
